@@ -36,6 +36,7 @@ const KEY_LENIENT_RANGE_ESCAPE: &str = "C16:lenient-range-bound-escape-differs";
 const KEY_BOOST_SKIP: &str = "C16:rewrite-skips-boosted-group";
 const KEY_RANGE_SEEK_OVERFLOW: &str = "C16:search-range-docset-seek-danger-overflow";
 const KEY_LENIENT_NEG_SUFFIX: &str = "C16:lenient-negative-number-with-suffix";
+const KEY_PREFIX_GAP: &str = "C16:phrase-prefix-gap-before-prefix-term-ignored";
 const KEY_SET_LOOP: &str = "C16:lenient-set-unicode-space-loop";
 
 // ------------------------------------------------------------------------------------------
